@@ -54,6 +54,13 @@ KINDS = {
                              'SyntaxError'),
     'bad_repr': (['>>> class R:', '...     def __repr__(self):', '...         raise RuntimeError("norepr")',
                   '>>> R()  # FAILMARK', 'something'], None),
+    # the raising __repr__ sits at line 2 / 3 / 4 of an earlier part; the failing part has 1 exec line and 1..3 want lines
+    'bad_repr_compact': (['>>> class R:', '...     def __repr__(self): raise RuntimeError("norepr")',
+                          '>>> R()  # FAILMARK', 'something'], None),
+    'bad_repr_want3': (['>>> class R:', '...     def __repr__(self):', '...         raise RuntimeError("norepr")',
+                        '>>> R()  # FAILMARK', 'something', 'second line', 'third line'], None),
+    'bad_repr_line4': (['>>> x0 = 1', '>>> class R:', '...     def __repr__(self):', '...         raise RuntimeError("norepr")',
+                        '', 'prose splits the parts', '', '>>> R()  # FAILMARK', 'something', 'second line', 'third line'], None),
     'bad_directive': (['>>> x = 1  # xdoctest: +REQUIRES(notatag) FAILMARK'], 'Exception'),
     'bad_directive_block': (['>>> # xdoctest: +REQUIRES(notatag) FAILMARK', '>>> x = 1'], 'Exception'),
     # unbalanced parentheses in a directive comment that the parser does not look at (extra blanks after the prompt):
